@@ -426,6 +426,11 @@ func (fi *FileInfo) makeSafeGetInt() getIntFn {
 			// refusing composites stops the scanner before it reads a stream
 			// body, keeping the cost of resolution proportional to the input
 			x, _, err := fi.doRead(fi.findObject(ref), getInt, true)
+			if err == io.EOF || err == io.ErrUnexpectedEOF {
+				// the object that holds the value is cut off: the file is
+				// damaged, the byte source is not failing
+				err = &MalformedFileError{Err: err}
+			}
 			if err != nil {
 				return 0, err
 			}
